@@ -32,16 +32,14 @@ DESIGN_REF = "DESIGN.md §5 C03, §3.2"
 LEVEL_TEXT = ("seeded exploration: each generated (state, call) is executed under several tape-chosen iteration orders of the "
               "library's effect sets and flag combinations and compared fact-by-fact and fluent-by-fluent with an independent "
               "reference successor; sampling of inputs and schedules, not exhaustive")
-LEVEL_NOTE = "trusts the reference interpreter; supported fragment only (no or/forall preconditions in the clean profile: known findings)"
+LEVEL_NOTE = "trusts the reference interpreter; supported fragment only (nested or/and, forall and unwrapped preconditions included; no numeric comparison inside a nested condition)"
 
 FLAGS = [(False, False), (True, False), (False, True), (True, True)]
 
 
 def run(ctx):
     feat = C.draw_features(ctx)
-    # disjunctive / universal preconditions are evaluated wrongly by the library (recorded findings under C04), but only
-    # in the direction "reported applicable although false"; C03 quantifies over calls that ARE applicable, so such
-    # domains are legitimate workload here (their effects must still be applied correctly)
+    # disjunctive / universal preconditions: drawn by draw_features for every check; this check asks for them more often
     nested = ctx.s("cfg").draw(4)
     if nested == 0:
         feat["or_pre"] = True
